@@ -205,7 +205,9 @@ pub fn run() {
                 let a = nodes[0].ask("dump").replace(' ', ";");
                 let b = nodes[3].ask("dump").replace(' ', ";");
                 // `behind`: committed requests the joiner has received neither in a snapshot nor as entries
-                format!("dumpn behind={} L={} N={}", history.len().saturating_sub(joiner_next), a, b)
+                let lm = nodes[0].ask("mem").replace("mem ", "");
+                let nm = nodes[3].ask("mem").replace("mem ", "");
+                format!("dumpn behind={} LM={} NM={} L={} N={}", history.len().saturating_sub(joiner_next), lm, nm, a, b)
             }
             ["dump"] if nodes.len() == 4 => {
                 let d: Vec<String> = nodes.iter_mut().take(3).map(|n| n.ask("dump").replace(' ', ";")).collect();
